@@ -80,6 +80,32 @@ def make_vias(unicode, prefix):
             raise RuntimeError("a client without servers sent something or returned without ignore_exc")
         return f
 
+    # a client whose server refuses connections: validation still comes before anything else
+    cdown = Client(("nobody-listens", 11211), socket_module=net, allow_unicode_keys=unicode, key_prefix=pb)
+    pdown = PooledClient(("nobody-listens", 11211), socket_module=net, allow_unicode_keys=unicode, key_prefix=pb)
+
+    def via_set_down(client):
+        def f(key):
+            net.begin_call(1)
+            net.wire_log.clear()
+            try:
+                client.set(key, b"v", noreply=False)
+            except ConnectionRefusedError:
+                raise Accepted()
+            raise RuntimeError("a set on an unreachable server returned")
+        return f
+
+    def via_after_stats(client):
+        # stats() validates its arguments with an empty prefix; the same text is then used as a key
+        def f(key):
+            from pymemcache.exceptions import MemcacheIllegalInputError
+            try:
+                client.check_key(key, key_prefix=b"")
+            except MemcacheIllegalInputError:
+                pass
+            return client.check_key(key, key_prefix=pb)
+        return f
+
     def via_get_many(client):
         def f(key):
             net.begin_call(1)
@@ -121,6 +147,9 @@ def make_vias(unicode, prefix):
         "client-get-ignore_exc": via_get(cli),
         "pooled-get_many-ignore_exc": via_get_many(pci),
         "client-get_many-ignore_exc": via_get_many(cli),
+        "client-set-unreachable": via_set_down(cdown),
+        "pooled-set-unreachable": via_set_down(pdown),
+        "client-key-after-stats-argument": via_after_stats(cl),
         "hash-get-no-server": via_dead(dead[False], False),
         "hash-get-no-server-ignore_exc": via_dead(dead[True], True),
         "client-delete": via_delete(cl),
@@ -165,7 +194,8 @@ def main(tier, rep):
     # ignore_exc must not turn a rejected key into a miss, and an empty rotation must not hide the rejection either
     VIAS = ["helper", "client", "pooled", "hash-get", "client-delete", "hash-get-ignore_exc", "pooled-delete",
             "client-get-ignore_exc", "pooled-get-ignore_exc", "hash-get-no-server", "hash-get-no-server-ignore_exc",
-            "pooled-get_many-ignore_exc", "client-get_many-ignore_exc"]
+            "pooled-get_many-ignore_exc", "client-get_many-ignore_exc", "client-set-unreachable", "pooled-set-unreachable",
+            "client-key-after-stats-argument"]
     n = 0
     for row in table:
         cls = BYTE_CLASS if not row["isstr"] else CP_CLASS
